@@ -9,6 +9,7 @@ carry its own uri/filename metadata, has_def/list_defs/get_def must agree.  Fres
 repeat string / file / module-reload under PYTHONHASHSEED 0, 1, 2, 3 and random.  Lookup options:
 module_directory, modulename_callable, URI spellings, and URIs that differ only in non-word characters.
 """
+import gc
 import io
 import json
 import os
@@ -128,15 +129,67 @@ def norm_exc(o):
     return o
 
 
-def run_template(kind, text, defs, d, res, items):
-    T = _st["Template"]
+ENC_SAMPLES = {
+    "latin-1": "café ü ÿ",
+    "iso-8859-15": "€uro œ",
+    "cp1251": "привет",
+    "koi8-r": "мир",
+    "shift_jis": "日本語ソ",   # the second byte of 'ソ' is 0x5C
+    "euc-jp": "日本語",
+    "cp1252": "“q” ž",
+}
+
+
+WIDE = ["utf-16", "utf-32", "utf-16-le"]
+
+
+def wide_module_file(enc, name, o):
+    """known finding: the module file of a template stored in UTF-16/32 is written in that encoding, which no
+    Python source file may use"""
+    if enc in WIDE and name.startswith("module") and o[0] == "exc" and o[1].startswith("SyntaxError"):
+        return "C08/wide-encoding-module-file"
+    return None
+
+
+def pick_encoding(r, kind, text):
+    """-> (text, file encoding, input_encoding argument or None).  Besides UTF-8, the template file may be
+    stored in a legacy encoding, declared either by the input_encoding argument or by a magic comment."""
+    k = r.random()
+    if k < 0.6:
+        return text, "utf-8", None
+    if k < 0.63:
+        enc = r.choice(WIDE)
+        return text, enc, enc
+    enc = r.choice(sorted(ENC_SAMPLES))
+    if kind in ("setorder", "defsonly"):
+        sample = ENC_SAMPLES[enc]
+        text = text.replace("BODY[", "BODY" + sample + "[").replace("(${a}", "(" + sample + "${a}").replace("[${a}", "[" + sample + "${a}")
+    try:
+        text.encode(enc)
+    except UnicodeEncodeError:
+        return text, "utf-8", None
+    if k < 0.8:
+        return text, enc, enc
+    return "## -*- coding: %s -*-\n" % enc + text, enc, None
+
+
+def run_template(kind, text, defs, d, res, items, enc="utf-8", input_encoding=None):
+    T0 = _st["Template"]
     rt = _st["runtime"]
     res.count("templates")
+    if enc != "utf-8":
+        res.count("templates_in_legacy_encoding")
     fn = os.path.join(d, "t.html")
-    with open(fn, "w", encoding="utf-8", newline="") as f:
+    with open(fn, "w", encoding=enc, newline="") as f:
         f.write(text)
+
+    def T(*a, **kw):
+        if "filename" in kw and input_encoding:
+            kw["input_encoding"] = input_encoding
+        return T0(*a, **kw)
+
     md = os.path.join(d, "mods")
-    rc = {"kind": "one", "text": text, "defs": defs}
+    rc = {"kind": "one", "text": text, "defs": defs, "enc": enc, "input_encoding": input_encoding}
     outs = {}
     tpls = {}
 
@@ -174,7 +227,7 @@ def run_template(kind, text, defs, d, res, items):
         outs["ModuleTemplate"] = outcome(via_module_template)
         res.count("module_template_renders")
     # the mako-render command
-    if kind != "c01" or True:
+    if not input_encoding:  # the command has no option to name the input encoding
         ofile = os.path.join(d, "cmd.out")
 
         def via_cmd():
@@ -203,10 +256,21 @@ def run_template(kind, text, defs, d, res, items):
     res.count("paths_compared", len(outs))
     ref = norm_exc(outs.get("string", ("exc", "no string template")))
     for name, o in outs.items():
+        if name == "mako-render" and o[0] == "exc" and ref[0] == "exc":
+            continue  # the command reports the failure as text on stderr and exits: failing is what is compared
         if norm_exc(o) != ref:
-            fid = None
-            res.violate("paths-differ-" + name, "template %r\npath string gives %r\npath %s gives %r" % (text, outs.get("string"), name, o), replay_case=rc)
-    # source / code / defs
+            fid = wide_module_file(enc, name, o)
+            res.violate("paths-differ-" + name, "template %r (file encoding %s)\npath string gives %r\npath %s gives %r" % (text, enc, outs.get("string"), name, o),
+                        finding=fid, witness="template file stored as UTF-16/UTF-32 (input_encoding names it), module_directory set: SyntaxError on import of the module file" if fid else None, replay_case=rc)
+    # source / code / defs.  A further Template for the same file that is dropped again must not take the
+    # others' source away (the registry of module infos is keyed by a name they share)
+    try:
+        extra = T(filename=fn)
+        del extra
+        gc.collect()
+        res.count("dropped_twin_templates")
+    except Exception:
+        pass
     for name, t in tpls.items():
         res.count("source_checks")
         try:
@@ -230,7 +294,7 @@ def run_template(kind, text, defs, d, res, items):
             b = norm_exc(outcome(lambda: T(text + "${%s()}" % dn).render_unicode(**CTX)))
             if a != b:
                 res.violate("get-def-differs", "template %r path %s: get_def(%r).render gives %r, calling it from a wrapper gives %r" % (text, name, dn, a, b), replay_case=rc)
-    items.append({"text": text, "file": fn, "moddir": md, "ctx": CTX, "ref": outs.get("string"), "defs": deflists.get("string", [[], []])[0]})
+    items.append({"text": text, "file": fn, "moddir": md, "ctx": CTX, "input_encoding": input_encoding, "enc": enc, "ref": outs.get("string"), "defs": deflists.get("string", [[], []])[0]})
     if ref[0] == "out" and (defs or "<%def" in text or any(ord(c) > 127 for c in text)):
         res.nontrivial("c08", text)
     if res.sample is None:
@@ -259,7 +323,8 @@ def run_children(items, base, res):
                     res.violate(
                         "hash-seed-or-process-differs-" + pname,
                         "template %r\nin this process: %r\nfresh process, PYTHONHASHSEED=%s, path %s: %r" % (item["text"], item["ref"], seed, pname, o),
-                        replay_case={"kind": "one", "text": item["text"], "defs": []},
+                        finding=wide_module_file(item.get("enc"), pname, ("exc", o.get("exc", "")) if "exc" in o else ("out", "")),
+                        replay_case={"kind": "one", "text": item["text"], "defs": [], "enc": item.get("enc", "utf-8"), "input_encoding": item.get("input_encoding")},
                     )
                 elif "out" in o:
                     if o["defs"] != item["defs"]:
@@ -362,9 +427,10 @@ def run_case(case):
             items = []
             for j in range(case["n"]):
                 kind, text, defs = gen_template(r)
+                text, enc, ienc = pick_encoding(r, kind, text)
                 d = os.path.join(base, "t%d" % j)
                 os.makedirs(d)
-                run_template(kind, text, defs, d, res, items)
+                run_template(kind, text, defs, d, res, items, enc, ienc)
             run_children(items, base, res)
         finally:
             shutil.rmtree(base, ignore_errors=True)
@@ -375,7 +441,7 @@ def run_case(case):
         base = os.path.join(_st["tmp"], "o%d" % _st["n"])
         os.makedirs(base)
         items = []
-        run_template("replay", case["text"], case.get("defs", []), base, res, items)
+        run_template("replay", case["text"], case.get("defs", []), base, res, items, case.get("enc", "utf-8"), case.get("input_encoding"))
         run_children(items, base, res)
         shutil.rmtree(base, ignore_errors=True)
     return res
